@@ -193,7 +193,11 @@ func replayMain(args []string) {
 	}
 	if rf.Violation.Clause == "across-processes" {
 		self, _ := os.Executable()
-		v, log = crossProcessCheck(self, rf.Case, filepath.Dir(args[0]))
+		if rf.Violation.Tag == "after-other-histories" {
+			v, log = warmColdCheck(self, rf.Case, filepath.Dir(args[0]))
+		} else {
+			v, log = crossProcessCheck(self, rf.Case, filepath.Dir(args[0]))
+		}
 	} else {
 		v, log, err = e.Check(rf.Case)
 		if err != nil {
@@ -428,6 +432,18 @@ func checkMain(args []string) {
 
 	if xproc != nil {
 		found[xproc.V.Class()] = xproc
+	}
+	if *prop == "C15" && xproc == nil {
+		// a process that has lived through other histories against one that has not
+		n := int64(96)
+		if *tier == "thorough" {
+			n = 960
+		}
+		f, compared := warmColdSample(self, *seed, n, *scratch)
+		total.Probes["history-compared-between-cold-and-warm-process"] += compared
+		if f != nil {
+			found[f.V.Class()] = f
+		}
 	}
 	for _, f := range crashes {
 		if _, ok := found[f.V.Class()]; !ok {
@@ -810,4 +826,121 @@ func confirmProcessCrash(self, prop string, seed uint64, progFile, scratch strin
 	fmt.Sscan(run, &r)
 	v := Violation{Prop: prop, Clause: "process-crash", Where: strings.ReplaceAll(what, " ", "-"), Detail: fmt.Sprintf("evaluating this case kills the process, twice out of two fresh processes: %s. A fatal runtime error cannot be recovered: a real jd process would die the same way with a Go runtime dump.", what)}
 	return &Found{Run: r, V: v, Case: raw, Log: []string{firstLines(string(last), 12)}, Count: 1}
+}
+
+// traceCase runs the history of a C15 case (after its warm-up histories, if
+// any) in a fresh process and returns the per-call trace.
+func traceCase(self string, c C15Case, dir string) ([]string, error) {
+	f, err := os.CreateTemp(dir, "trace-case-*.json")
+	if err != nil {
+		return nil, err
+	}
+	b, _ := json.Marshal(c)
+	f.Write(b)
+	f.Close()
+	defer os.Remove(f.Name())
+	cmd := exec.Command(self, "trace15", f.Name())
+	cmd.Env = append(os.Environ(), "GOMAXPROCS=2", "GOMEMLIMIT=3GiB")
+	done := make(chan struct{})
+	var o []byte
+	go func() { o, err = cmd.Output(); close(done) }()
+	select {
+	case <-done:
+	case <-time.After(60 * time.Second):
+		cmd.Process.Kill()
+		<-done
+		return nil, errDigestTimeout
+	}
+	if err != nil {
+		return nil, err
+	}
+	return strings.Split(strings.TrimRight(string(o), "\n"), "\n"), nil
+}
+
+// warmColdCheck compares what jd returns for the calls of a history in a
+// process that runs nothing else (cold) with a process that first ran the
+// case's warm-up histories (warm). Operands are identical by construction;
+// the trace lines carry their digest to prove it.
+func warmColdCheck(self string, raw json.RawMessage, dir string) (*Violation, []string) {
+	var c C15Case
+	if err := json.Unmarshal(raw, &c); err != nil {
+		infra("warm/cold check: %v", err)
+	}
+	cold := c
+	cold.WarmUp = nil
+	a, err1 := traceCase(self, cold, dir)
+	b, err2 := traceCase(self, c, dir)
+	if err1 != nil || err2 != nil {
+		return nil, nil // a history that kills or stalls a process is the workers' subject
+	}
+	for i := range a {
+		if i >= len(b) || a[i] == b[i] {
+			continue
+		}
+		ia, ib := strings.Index(a[i], " output="), strings.Index(b[i], " output=")
+		if ia < 0 || ib < 0 || a[i][:ia] != b[i][:ib] {
+			return nil, a
+		}
+		op := strings.Fields(a[i])[2]
+		if strings.HasPrefix(a[i], "construct") {
+			op = "Diff/Read"
+		}
+		v := viol15("across-processes", op, "the same call on identical values returns %s in a process that did nothing before, and %s in a process that ran %d other histories first", showStr(a[i][ia+8:]), showStr(b[i][ib+8:]), len(c.WarmUp))
+		v.Tag = "after-other-histories"
+		return v, []string{"cold process: " + a[i], "warm process: " + b[i]}
+	}
+	return nil, a
+}
+
+// warmColdSample applies warmColdCheck to n runs of the seed, each warmed up
+// with the six runs before it, and minimises the warm-up of the first failure.
+func warmColdSample(self string, seed uint64, n int64, scratch string) (*Found, int64) {
+	const k = 6
+	gen := func(run int64) C15Case { return genCase15(newChooser(runSeed(seed, "C15", run))) }
+	type res struct {
+		run int64
+		v   *Violation
+		log []string
+		c   C15Case
+	}
+	results := make([]res, n)
+	var wg sync.WaitGroup
+	sem := make(chan struct{}, 16)
+	for i := int64(0); i < n; i++ {
+		wg.Add(1)
+		go func(i int64) {
+			defer wg.Done()
+			sem <- struct{}{}
+			defer func() { <-sem }()
+			run := k + i*7
+			c := gen(run)
+			for j := run - k; j < run; j++ {
+				c.WarmUp = append(c.WarmUp, gen(j))
+			}
+			raw, _ := json.Marshal(c)
+			v, log := warmColdCheck(self, raw, scratch)
+			results[i] = res{run, v, log, c}
+		}(i)
+	}
+	wg.Wait()
+	for _, r := range results {
+		if r.v == nil {
+			continue
+		}
+		c, v, log := r.c, r.v, r.log
+		class := v.Class()
+		for i := 0; i < len(c.WarmUp); {
+			d := c
+			d.WarmUp = append(append([]C15Case(nil), c.WarmUp[:i]...), c.WarmUp[i+1:]...)
+			raw, _ := json.Marshal(d)
+			if v2, log2 := warmColdCheck(self, raw, scratch); v2 != nil && v2.Class() == class {
+				c, v, log = d, v2, log2
+			} else {
+				i++
+			}
+		}
+		raw, _ := json.Marshal(c)
+		return &Found{Run: r.run, V: *v, Case: raw, Log: log, Count: 1}, n
+	}
+	return nil, n
 }
